@@ -241,7 +241,7 @@ impl Universe {
         for (t, b) in [("s1", &b"{\"sbom\":\"s1\"}"[..]), ("s2", &b"{\"sbom\":\"s2\", \"x\": [1,2]}\n"[..]), ("s3", &b""[..])] {
             u.sboms.insert(t.into(), b.to_vec());
         }
-        for (t, n, b) in [("f1", "f1.txt", &b"file one\n"[..]), ("f2", "sub dir.d", &b"\x00\x01binary"[..]), ("f3", ".hidden", &b""[..])] {
+        for (t, n, b) in [("f1", "f1.txt", &b"file one\n"[..]), ("f2", "bin/f2 tool", &b"\x00\x01binary"[..]), ("f3", ".hidden", &b""[..])] {
             u.files.insert(t.into(), (n.into(), b.to_vec()));
         }
         for (t, b) in [("p1", &b"#!/bin/sh\necho p1\n"[..]), ("p2", &b"#!/bin/sh\necho p2 >&3\n"[..]), ("p3", &b"\x7fELF"[..])] {
@@ -286,6 +286,19 @@ impl Universe {
             }
         }
         format!("UNKNOWN:{entries:?}")
+    }
+    /// Token of an environment the library handed out for the layer at `layer_dir`: it has to be
+    /// what reading that directory gives (explicit entries - identified by the harness's own
+    /// reader - plus the implicit bin/lib/... entries).
+    pub fn env_token_at(&self, env: &LayerEnv, layer_dir: &Path) -> String {
+        match LayerEnv::read_from_layer_dir(layer_dir) {
+            Ok(disk) if disk == *env => match read_env_entries(layer_dir) {
+                Ok(e) => self.env_token_of_entries(e),
+                Err(e) => format!("UNKNOWN:{e}"),
+            },
+            Ok(disk) if disk != LayerEnv::new() || layer_dir.join("bin").is_dir() => format!("DIFFERS-FROM-DISK:{env:?}"),
+            _ => self.env_token_of_layer_env(env),
+        }
     }
     pub fn env_token_of_layer_env(&self, env: &LayerEnv) -> String {
         if *env == LayerEnv::new() {
@@ -451,6 +464,16 @@ pub fn write_env_entries(layer_dir: &Path, entries: &[EnvEntry]) {
     }
 }
 
+/// Writes the file of a file token (its name may lie in a sub-directory such as `bin/`, which makes
+/// the layer contribute implicit PATH entries).
+pub fn write_file_token(dir: &Path, n: &str, b: &[u8]) -> std::io::Result<()> {
+    let p = dir.join(n);
+    if let Some(parent) = p.parent() {
+        fs::create_dir_all(parent)?;
+    }
+    fs::write(p, b)
+}
+
 /// Creates the files of layer `name` in `layers_dir` exactly as the abstract layer says.
 pub fn materialize(u: &Universe, layers_dir: &Path, name: &str, l: &ALayer) {
     let dir = layers_dir.join(name);
@@ -458,7 +481,7 @@ pub fn materialize(u: &Universe, layers_dir: &Path, name: &str, l: &ALayer) {
         fs::create_dir_all(&dir).unwrap();
         for f in &l.files {
             let (n, b) = u.files.get(f).unwrap_or_else(|| panic!("file token {f}"));
-            fs::write(dir.join(n), b).unwrap();
+            write_file_token(&dir, n, b).unwrap();
         }
         write_env_entries(&dir, &u.env_entries(&l.env));
         if !l.execd.is_empty() {
@@ -595,7 +618,13 @@ pub fn project(u: &Universe, layers_dir: &Path, name: &str) -> ALayer {
                         let tok = u
                             .files
                             .iter()
-                            .find(|(_, (fname, bytes))| *fname == s && fs::read(dir.join(&n)).is_ok_and(|c| c == *bytes))
+                            .find(|(_, (fname, bytes))| {
+                                if let Some((d, f)) = fname.split_once('/') {
+                                    d == s && fs::read(dir.join(d).join(f)).is_ok_and(|c| c == *bytes) && fs::read_dir(dir.join(d)).is_ok_and(|rd| rd.count() == 1)
+                                } else {
+                                    *fname == s && fs::read(dir.join(&n)).is_ok_and(|c| c == *bytes)
+                                }
+                            })
                             .map(|(t, _)| t.clone());
                         l.files.insert(tok.unwrap_or_else(|| format!("UNKNOWN:{s}")));
                     }
@@ -807,7 +836,7 @@ impl<M: MdType> ScriptLayer<'_, M> {
             "Ok" => {
                 for f in &res.shape.files {
                     let (n, b) = self.u.files.get(f).expect("file token");
-                    fs::write(layer_path.join(n), b).map_err(|e| TErr(format!("harness write: {e}")))?;
+                    write_file_token(layer_path, n, b).map_err(|e| TErr(format!("harness write: {e}")))?;
                 }
                 Ok(LayerResult {
                     metadata: M::make(self.u, &res.md),
@@ -863,7 +892,7 @@ impl<M: MdType> Layer for ScriptLayer<'_, M> {
 
     fn existing_layer_strategy(&mut self, _ctx: &BuildContext<TB>, d: &LayerData<M>) -> Result<ExistingLayerStrategy, TErr> {
         let _p = Pause::new();
-        self.log.borrow_mut().push(call("strategy", d.content_metadata.metadata.project(self.u), &self.u.env_token_of_layer_env(&d.env), false));
+        self.log.borrow_mut().push(call("strategy", d.content_metadata.metadata.project(self.u), &self.u.env_token_at(&d.env, &d.path), false));
         match self.o.strat.k.as_str() {
             "Default" => PlainLayer::<M> { types: self.types(), _m: std::marker::PhantomData }.existing_layer_strategy(_ctx, d),
             "Keep" => Ok(ExistingLayerStrategy::Keep),
@@ -879,7 +908,7 @@ impl<M: MdType> Layer for ScriptLayer<'_, M> {
 
     fn update(&mut self, _ctx: &BuildContext<TB>, d: &LayerData<M>) -> Result<LayerResult<M>, TErr> {
         let _p = Pause::new();
-        self.log.borrow_mut().push(call("update", d.content_metadata.metadata.project(self.u), &self.u.env_token_of_layer_env(&d.env), false));
+        self.log.borrow_mut().push(call("update", d.content_metadata.metadata.project(self.u), &self.u.env_token_at(&d.env, &d.path), false));
         if self.o.ures.k == "Default" {
             return PlainLayer::<M> { types: self.types(), _m: std::marker::PhantomData }.update(_ctx, d);
         }
@@ -906,7 +935,7 @@ fn run_trait<M: MdType>(u: &Universe, ctx: &BuildContext<TB>, name: &LayerName, 
     let layer = ScriptLayer::<M> { u, o, log: log.clone(), _m: std::marker::PhantomData };
     match ctx.handle_layer(name.clone(), layer) {
         Ok(d) => {
-            let mut r = ret(true, "Data", "-", "-", d.content_metadata.metadata.project(u), &u.env_token_of_layer_env(&d.env));
+            let mut r = ret(true, "Data", "-", "-", d.content_metadata.metadata.project(u), &u.env_token_at(&d.env, &d.path));
             r.ty = d.content_metadata.types.map_or_else(no_ty, |t| ATy { set: true, build: t.build, launch: t.launch, cache: t.cache });
             if d.path != ctx.layers_dir.join(&o.n) || d.name != *name {
                 r.kind = "Data with wrong path or name".into();
@@ -985,7 +1014,7 @@ pub fn execute(u: &Universe, ctx: &BuildContext<TB>, o: &AObs, lref: Option<&Any
             unit_ret(with_ref!(lref.expect("ref"), lr => lr.write_env(&env)))
         }
         "read_env" => match with_ref!(lref.expect("ref"), lr => lr.read_env()) {
-            Ok(e) => ret(true, "Env", "-", "-", no_md(), &u.env_token_of_layer_env(&e)),
+            Ok(e) => { let path = with_ref!(lref.expect("ref"), lr => lr.path()); ret(true, "Env", "-", "-", no_md(), &u.env_token_at(&e, &path)) }
             Err(e) => err_ret::<()>(&e),
         },
         "write_sboms" => {
@@ -999,7 +1028,7 @@ pub fn execute(u: &Universe, ctx: &BuildContext<TB>, o: &AObs, lref: Option<&Any
         "write_file" => {
             let (n, b) = u.files.get(&o.arg.file).expect("file token");
             let path = with_ref!(lref.expect("ref"), lr => lr.path());
-            match fs::write(path.join(n), b) {
+            match write_file_token(&path, n, b) {
                 Ok(()) => ret_unit(),
                 Err(_) => ret_err_layer(),
             }
